@@ -361,6 +361,7 @@ func flight4Generate(
 	); err != nil {
 		return nil, nil, err
 	}
+	state.NegotiatedProtocol = finalServerALPN(serverHello.Extensions)
 	decision := negotiation.DecideConnectionID(offer, serverHello.Extensions)
 	content := handshake.Handshake{Message: serverHello}
 
